@@ -18,6 +18,7 @@ OWN = {
     "ChanFlow": ("ChanFlowTable.lean", "chanFlow"), "SingleStmtFlow": ("SingleStmtFlowTable.lean", "singleStmtFlow"),
     "ImportFlow": ("ImportFlowTable.lean", "importFlow"), "LexFlow": ("LexFlowTable.lean", "lexFlow"),
     "CliFlow": ("CliFlowTable.lean", "cliFlow"), "Grammar": ("GrammarTable.lean", "grammar"),
+    "StmtFlow": ("StmtFlowTable.lean", "stmtFlow"),
 }
 # tables written inside a property file: (file, def name, predicate on the function name)
 INLINE = {
@@ -61,8 +62,8 @@ def write_inline(name):
 
 names = sys.argv[1:]
 if names == ["--all"]:
-    names = list(OWN) + list(INLINE)
+    names = list(dict.fromkeys(list(OWN) + list(INLINE)))
 for n in names:
+    if n not in OWN and n not in INLINE: sys.exit("unknown table " + n)
     if n in OWN: write_own(n)
-    elif n in INLINE: write_inline(n)
-    else: sys.exit("unknown table " + n)
+    if n in INLINE: write_inline(n)
